@@ -44,6 +44,7 @@ class Tr:
     parents = None             # {alias: Tr of the parent class} for calls `Alias.method(self, ...)` (inlined)
     enum_strs = None           # {"Semantics.X": "value"}: members of a string-valued enumeration
     offline = False            # True while translating the offline visitor (node / args / self.ast accessors allowed)
+    shared = None              # names of the method being translated that may be bound to a list somebody else refers to
     interp = False             # True while translating methods of DiscreteTimeInterpreter (exact unit arithmetic)
     clock = False              # True while translating the sampling bookkeeping of update() / evaluate()
     normalize_expr = None      # the expression returned by the `normalize` property
@@ -253,6 +254,11 @@ class Tr:
             if m == "insert" and len(a) == 2:
                 return "(.insertLoc %s %s %s)" % (q(x), self.expr(a[0]), self.expr(a[1]))
         if isinstance(s, ast.AugAssign) and isinstance(s.op, ast.Add) and isinstance(s.target, ast.Name):
+            # `x += e` extends a list in place: the same as `x = x + e` only when nothing else refers to the list, i.e. when
+            # every binding of x in this method is a freshly built list (or a number); otherwise the list may be the result
+            # of an operand or the caller's data, and the value semantics of the embedding cannot express the change
+            if self.shared is not None and s.target.id in self.shared:
+                return "(.unsupported %s)" % q("in-place extension of a list that may be shared: " + src(s))
             return "(.setLoc %s (.bin .add (.loc %s) %s))" % (q(s.target.id), q(s.target.id), self.expr(s.value))
         if isinstance(s, ast.For) and not s.orelse and isinstance(s.target, ast.Tuple) and len(s.target.elts) == 2 \
                 and all(isinstance(x, ast.Name) for x in s.target.elts) and isinstance(s.iter, ast.Call) \
@@ -427,6 +433,32 @@ def offline_method(tr, m):
             interval = True
             continue
         body.append(st)
+    # names that may be bound to a shared list: the results of the operands, and every name with a binding that is not a
+    # freshly built value (comprehension, list literal, concatenation, repetition, slice, arithmetic, constant, call of len/min/max)
+    def fresh(e):
+        if isinstance(e, (ast.ListComp, ast.List, ast.Constant, ast.Compare, ast.BoolOp)):
+            return True
+        if isinstance(e, ast.BinOp):
+            return True
+        if isinstance(e, ast.UnaryOp):
+            return True
+        if isinstance(e, ast.Subscript) and isinstance(e.slice, ast.Slice):
+            return True
+        if isinstance(e, ast.Call) and isinstance(e.func, ast.Name) and e.func.id in ("len", "min", "max", "float", "int", "abs", "list"):
+            return True
+        if isinstance(e, ast.Call) and src(e.func).startswith(("math.", "collections.deque")):
+            return True
+        return False
+    shared = set(kids)
+    for st in body:
+        for x in ast.walk(st):
+            if isinstance(x, ast.Assign):
+                for t_ in x.targets:
+                    if isinstance(t_, ast.Name) and not fresh(x.value):
+                        shared.add(t_.id)
+            elif isinstance(x, (ast.For, ast.comprehension)) and isinstance(x.target, ast.Name):
+                pass
+    tr.shared = shared
     ret = "none"
     if body and isinstance(body[-1], ast.Return):
         r = body.pop()
@@ -435,6 +467,7 @@ def offline_method(tr, m):
         btxt = "(.unsupported %s)" % q("return inside " + m.name)
     else:
         btxt = tr.block(body, 0)
+    tr.shared = None
     return "{ name := %s, kids := [%s], interval := %s, body := %s, ret := %s }" % (
         q(m.name), ", ".join(q(k) for k in kids), "true" if interval else "false", btxt, ret)
 
